@@ -101,7 +101,7 @@ def ensure_harness(profile="debug", features=()):
     return path
 
 
-def run_cases(binary, lines, shards=None, timeout=3000, extra_args=()):
+def run_cases(binary, lines, shards=None, timeout=3000, extra_args=(), prelude=()):
     """Runs `binary` over the case lines, sharded over processes; returns one
     output line per case, in order."""
     if not lines:
@@ -114,13 +114,14 @@ def run_cases(binary, lines, shards=None, timeout=3000, extra_args=()):
         def work(i):
             inp = os.path.join(tmp, "in%d" % i)
             with open(inp, "w") as f:
-                f.write("\n".join(chunks[i]) + "\n")
+                f.write("\n".join(list(prelude) + chunks[i]) + "\n")
             with open(inp) as fin:
                 p = subprocess.run([binary] + list(extra_args), stdin=fin, capture_output=True, text=True,
                                    timeout=timeout, env=ENV_OFFLINE)
             outs = p.stdout.split("\n")
             if outs and outs[-1] == "":
                 outs.pop()
+            outs = outs[len(prelude):]
             if len(outs) != len(chunks[i]):
                 # the process died: attribute the crash to the first case without output
                 outs = outs + ["CRASH rc=%s %s" % (p.returncode, p.stderr[-200:].replace("\n", " "))] * (len(chunks[i]) - len(outs))
